@@ -11,6 +11,7 @@ mod gen;
 mod rs;
 mod serval;
 mod streams;
+mod syntax;
 mod oracle;
 mod pool;
 mod report;
@@ -190,6 +191,14 @@ fn main() {
                 run_rs_stream(&o, &mut rep, "random-expressions", "type-directed random expressions of depth <= 6 over all 47 constructors (7/8 well-typed children), leaves from the boundary pool and from facts fields of every type, through RuleSet::evaluate_value with cacheable / non-cacheable / failing user functions and symbols; inputs map / non-map / None", false, cases, if o.prop == "C02" { "full" } else { "range" });
             }
         }
+        "C06" => syntax::run_c06(&mut rep, &o.driver, o.workers, o.tier == "thorough", o.seed),
+        "C07" => syntax::run_c07(&mut rep, &o.driver, o.workers, o.tier == "thorough", o.seed),
+        "C08" => {
+            let mut known = vec![];
+            syntax::run_c08(&mut rep, &o.driver, o.workers, o.tier == "thorough", o.seed, &mut known);
+        }
+        "C14" => syntax::run_c14(&mut rep, &o.driver, o.workers, o.tier == "thorough", o.seed),
+        "C16" => syntax::run_c16(&mut rep, &o.driver, o.workers, o.tier == "thorough", o.seed),
         "C13" => serval::run(&mut rep, &o.driver, o.workers, o.tier == "thorough", o.seed),
         "C15" => builder::run(&mut rep, &o.driver, o.workers, o.tier == "thorough", o.seed),
         "C17" => conv::run(&mut rep, &o.driver, o.workers, o.tier == "thorough", o.seed),
